@@ -106,7 +106,7 @@ Module Examples.
 Import Strings.String.
 Local Open Scope string_scope.
 Definition cfg_warn := mkConfig Warn harness_fmt.
-Definition lg_t0 := mkLogger 0 true (FThr 0) 2.
+Definition lg_t0 := mkLogger 0 true (FThr 0) (flat_sinks 2).
 Definition th_err : thresholds := set_threshold init_thresholds 0 0 Error.
 Example C10_ex_compile_time : exec_one cfg_warn init_thresholds lg_t0 Info None [ICall KLambda 1 (B "x"); ICall KStdFunL 2 (B "y")] = [].
 Proof. reflexivity. Qed.
